@@ -409,9 +409,77 @@ def text_stream(ctx, order, ntrees):
     M.check_table('C05:table')
 
 
+def keyword_like_names(ctx):
+    """variables whose names differ from a reserved word only in letter case, or contain one
+    (`tRUE`, `FALSe`, `Ite`, `true_`, `itex`): the documented keywords are the exact spellings
+    TRUE/True/true, FALSE/False/false and ite, everything else is a name.  Implementation and
+    oracle only (the session's variables are named v0, v1, ...): dd.bdd and dd.autoref."""
+    import dd.bdd as _b
+    import dd.autoref as _a
+    rng = ctx.rng
+    pool = ['tRUE', 'FALSe', 'TRue', 'fALSE', 'true_', 'false1', 'itex', 'x']
+    names = rng.sample(pool, 4)
+    n = len(names)
+
+    def tab(b, u):
+        return oracle.tt_fast(b, u, names)
+    var = {v: T.var(i, n) for i, v in enumerate(names)}
+    for autoref in (False, True):
+        A = _a.BDD() if autoref else None
+        b = A._bdd if autoref else _b.BDD()
+        order = names[:]
+        rng.shuffle(order)
+        b.declare(*order)
+        mgr = A if autoref else b
+        case = dict(stream='keyword-like names', names=order, autoref=autoref)
+        held = []
+        try:
+            for _ in range(10):
+                x, y, z = (rng.choice(names) for _ in range(3))
+                kind = rng.randrange(5)
+                if kind == 0:
+                    text, e = x, var[x]
+                elif kind == 1:
+                    text, e = f'{x} /\\ ~ {y}', var[x] & T.neg(var[y], n)
+                elif kind == 2:
+                    text, e = f'ite({x}, {y}, FALSE) \\/ (TRUE /\\ {z})', T.ite(var[x], var[y], 0, n) | var[z]
+                elif kind == 3:
+                    text, e = f'\\E {x}: ({x} <=> {y})', T.full(n)
+                else:
+                    text, e = f'({x} => true) /\\ ({y} \\/ False)', var[y]
+                ctx.case(('keyword-like', autoref, text), True)
+                ctx.count('keyword-like-names')
+                try:
+                    r = mgr.add_expr(text)
+                except Exception as ex:  # noqa: B902
+                    ctx.violation('C05:rejected', f'add_expr rejected `{text}` ({type(ex).__name__}) with the '
+                                  f'declared names {order}', dict(case, text=text))
+                    break
+                held.append(r)
+                u = r.node if autoref else r
+                if tab(b, u) != e:
+                    ctx.violation('C05:meaning', f'`{text}` (names {order}) denotes {tab(b, u):#x}, expected {e:#x}',
+                                  dict(case, text=text))
+                    break
+                back = mgr.to_expr(r)
+                r2 = mgr.add_expr(back)
+                held.append(r2)
+                if (r2.node if autoref else r2) != u:
+                    ctx.violation('C05:roundtrip', f'add_expr(to_expr(u)) differs from u for `{text}` '
+                                  f'(printed as `{back}`)', dict(case, text=text, printed=back))
+                    break
+        finally:
+            del held
+            b._ref = {k: (0 if k != 1 else b._ref[1]) for k in b._ref}
+            if not autoref:
+                b._ref[1] = 0
+
+
 def run(ctx):
     q = ctx.quick
     rng = ctx.rng
+    for _ in range(3 if q else 30):
+        keyword_like_names(ctx)
     orders = gen.orders(3)
     for order in (orders[:1] if q else orders[:2]):
         pairs_stream(ctx, order)
